@@ -142,6 +142,9 @@ func c17Shard(src, dst MapSpec, shift int, tier string) mc.Shard {
 						for _, scale := range scales {
 							for _, ord := range orders {
 								res.Evaluations++
+								mc.Progress(func() string {
+									return fmt.Sprintf("ChangeMapping %s (%s store, exact=%v, source %s %v) -> %s (%s store), scale %v, map order %s", src, sk, exact, s.name, s.ent, dspec, tk, scale, ord.name)
+								})
 								SetMapOrder(ord.perm)
 								out := srcSl.ChangeMapping(m2, tk, scale)
 								SetMapOrder(nil)
